@@ -676,10 +676,10 @@ def scan_seeds(info, labels, log, limit=400, pred_limit=120):
             if rc != 0:
                 return 0, [], "C02/Scan.v does not compile: " + (o + er)[-400:]
     head = "From PGV Require Import C02.Lang C02.Sem C02.Show C02.Walk C02.Scan %s.%s_walkdefs.\nOpen Scope string_scope.\nOpen Scope Z_scope.\n" % (GEN_NAME, name)
-    mism = []
-    for s0_ in range(0, len(sel), 120):
+    def chunk(args):
+        k, part = args
         body, rows, done = [head], [], set()
-        for i, sd, target in sel[s0_:s0_ + 120]:
+        for i, sd, target in part:
             proc, lbl = sd["label"].split(".", 1)
             if i not in done:
                 body.append("Definition sd%d : gstate := %s.\n" % (i, sd["state"]))
@@ -689,9 +689,10 @@ def scan_seeds(info, labels, log, limit=400, pred_limit=120):
             else:
                 rows.append('scan_pred (%s_W %d) "%s" "%s" sd%d "%d"' % (name, sd["cset"], target.split(".", 1)[0], target.split(".", 1)[1], i, i))
         body.append("Definition R := Eval vm_compute in filter (fun s => negb (String.eqb s \"\")) [%s].\nPrint R.\n" % ";\n ".join(rows))
-        rc, out, err = coq_scratch("C02_seeds_%s_%d" % (name, os.getpid()), "".join(body), timeout=900)
+        rc, out, err = coq_scratch("C02_seeds_%s_%d_%d" % (name, os.getpid(), k), "".join(body), timeout=900)
         if rc != 0:
-            return 0, [], "seed scan failed: " + (out + err)[-600:]
+            return None, "seed scan failed: " + (out + err)[-600:]
+        found = []
         flat = re.sub(r"\s+", " ", out).replace('""', '"')
         for mm in flat.split("#@#MISMATCH")[1:]:
             tail = mm.split("#@#SEEDID", 1)[1].split("#@#ENDSEED")[0]
@@ -700,13 +701,21 @@ def scan_seeds(info, labels, log, limit=400, pred_limit=120):
             mm = mm.split("#@#END")[0]
             d = {"system": name, "seed": sid, "sched": seeds[sid]["sched"] + ([via] if via else []), "init_rnd": seeds[sid]["init_rnd"],
                  "cset": seeds[sid]["cset"], "rnd": [], "steps": 0, "focus": []}
-            for part in mm.split("#@#"):
-                if "=" in part:
-                    k, v = part.split("=", 1)
-                    d[k.strip()] = v.strip()
-            mism.append(d)
-        if mism:
-            break
+            for part_ in mm.split("#@#"):
+                if "=" in part_:
+                    k_, v = part_.split("=", 1)
+                    d[k_.strip()] = v.strip()
+            found.append(d)
+        return found, None
+
+    from concurrent.futures import ThreadPoolExecutor
+    parts = [(k, sel[s0_:s0_ + 50]) for k, s0_ in enumerate(range(0, len(sel), 50))]
+    mism = []
+    with ThreadPoolExecutor(max_workers=4) as ex:
+        for found, err in ex.map(chunk, parts):
+            if err:
+                note = err
+            mism += found or []
     return len(sel), mism, note
 
 
@@ -760,10 +769,22 @@ def _raft_adapt(state):
     return st
 
 
+def _raft_inv(tproc, self_, cfg):
+    n = cfg["NumServers"]
+    if tproc == "client":
+        return "c%d" % (self_ - 6 * n)
+    if tproc == "crasher":
+        return "x%d" % (self_ - 5 * n)
+    k = int(tproc[1:])
+    return "s%d.%d" % (self_ - k * n, k)
+
+
 REAL_SYSTEMS = {
-    "dqueue": {"bin": "c02s", "proc": lambda nm, cfg: ("Producer", 0) if nm == "producer" else ("Consumer", int(nm[1:]))},
-    "pbkvs": {"bin": "c02s", "proc": lambda nm, cfg: ("Replica", int(nm[1:])) if int(nm[1:]) <= cfg["NUM_REPLICAS"] else ("Client", int(nm[1:]))},
-    "raftkvs": {"bin": "c02s", "proc": _raft_proc, "adapt": _raft_adapt, "floor": {"m.req": 6}},
+    "dqueue": {"bin": "c02s", "proc": lambda nm, cfg: ("Producer", 0) if nm == "producer" else ("Consumer", int(nm[1:])),
+               "inv": lambda tp, sf, cfg: "producer" if tp == "Producer" else "c%d" % sf},
+    "pbkvs": {"bin": "c02s", "proc": lambda nm, cfg: ("Replica", int(nm[1:])) if int(nm[1:]) <= cfg["NUM_REPLICAS"] else ("Client", int(nm[1:])),
+              "inv": lambda tp, sf, cfg: "p%d" % sf},
+    "raftkvs": {"bin": "c02s", "proc": _raft_proc, "adapt": _raft_adapt, "floor": {"m.req": 6}, "inv": _raft_inv},
     # served by harness/cmd/c16 (same output shape); thorough tier
     "shcounter": {"bin": "c16", "proc": lambda nm, cfg: ("Node", int(nm[1:]))},
     "loadbalancer": {"bin": "c16", "proc": lambda nm, cfg: ("LoadBalancer", 0) if nm == "lb" else
@@ -808,6 +829,19 @@ def real_go_steplib(info, sysd, cset, n_sched, n_steps, rng, log):
     procs = res[0]["procs"]
     cases = [{"id": i, "system": name, "cfg": cfg,
               "sched": [[rng.choice(procs), [rng.randrange(0, 6) for _ in range(4)]] for _ in range(n_steps)]} for i in range(n_sched)]
+    # half of the schedules start with the schedule of a stored seed state (deep executions: elections, replication, crashes);
+    # the real code may resolve a choice index to another element than the model did, which only makes it another real run
+    seeds = [sd for sd in load_seeds(info)[0] if sd["cset"] == cset and len(sd["sched"]) >= 10] if "inv" in rs else []
+    for c in cases[: len(cases) // 2] if seeds else []:
+        sd = rng.choice(seeds)
+        pre = []
+        for ent in sd["sched"][-n_steps:] if False else sd["sched"][:n_steps]:
+            try:
+                key, selfs, ks = ent.split("/")
+                pre.append([rs["inv"](key.split(".", 1)[0], int(selfs), cfg), [int(x) for x in ks.split(".") if x != ""]])
+            except ValueError:
+                break
+        c["sched"] = (pre + c["sched"])[:max(n_steps, len(pre) + 10)]
     rc, res, err = vlib.run_jsonl(rs["bin"], cases, timeout=900)
     if rc != 0 or len(res) != len(cases):
         return 0, 0, [], "harness %s failed (rc=%d, %d/%d results): %s" % (rs["bin"], rc, len(res), len(cases), err[-300:])
@@ -857,7 +891,7 @@ def real_go_steplib(info, sysd, cset, n_sched, n_steps, rng, log):
     out = ""
     for s0_ in range(0, len(rows), 150):
         body = head + "".join(defs) + "Definition R := Eval vm_compute in cat [%s].\nPrint R.\n" % ";\n ".join(rows[s0_:s0_ + 150])
-        rc, o, err = coq_scratch("C02_reals_%s_%d" % (name, os.getpid()), body, timeout=1500)
+        rc, o, err = coq_scratch("C02_reals_%s_%d_%d" % (name, cset, os.getpid()), body, timeout=1500)
         if rc != 0:
             return 0, 0, [], "evaluation of the real-Go comparison of %s failed: %s" % (name, (o + err)[-800:])
         out += o
@@ -926,3 +960,38 @@ def direct_walks(info, sysd, rnds, steps, log):
                     d[k.strip()] = v.strip()
             bad.append(d)
     return agree, lazy, bad, None
+
+
+def replay_seed_case(info, case, log):
+    """replay of a witness found on a seed: the state is RECOMPUTED from Init by the stored schedule (TLA+ model), then
+    both trees of the label are compared on it. -> (mismatch dicts, note)"""
+    name = info["name"]
+    e = ensure_walkdefs(info, log)
+    if e:
+        return [], e
+    ents = []
+    for ent in case.get("schedule") or []:
+        key, selfs, ks = ent.lstrip("~").split("/")
+        ents.append('("%s", VNum (%d), [%s]%%nat)' % (key, int(selfs), "; ".join(x for x in ks.split(".") if x != "")))
+    cs = case.get("cset") or 0
+    body = ("From PGV Require Import C02.Lang C02.Sem C02.Show C02.Walk %s.%s_walkdefs.\nOpen Scope string_scope.\nOpen Scope Z_scope.\n"
+            "Definition W := %s_W %d.\n"
+            "Definition st0 : gstate := match init_state W (w_init W) [] [%s]%%nat with Ok s => s | Err _ => [] end.\n"
+            "Definition st : gstate := replay_sched W st0 [%s].\n"
+            "Definition R := Eval vm_compute in scan_seed W \"%s\" \"%s\" st \"0\".\nPrint R.\n"
+            % (GEN_NAME, name, name, cs, "; ".join(str(x) for x in (case.get("init_rnd") or [])), ";\n ".join(ents),
+               case.get("process"), case.get("label")))
+    rc, out, err = coq_scratch("C02_replayseed_%s_%d" % (name, os.getpid()), body, timeout=900)
+    if rc != 0:
+        return [], "replay evaluation failed: " + (out + err)[-500:]
+    flat = re.sub(r"\s+", " ", out).replace('""', '"')
+    res = []
+    for mm in flat.split("#@#MISMATCH")[1:]:
+        mm = mm.split("#@#END")[0]
+        d = {}
+        for part in mm.split("#@#"):
+            if "=" in part:
+                k, v = part.split("=", 1)
+                d[k.strip()] = v.strip()
+        res.append(d)
+    return res, None
